@@ -67,17 +67,17 @@ func TestC14(t *testing.T) {
 }
 
 type rig struct {
-	c      *mon.Case
-	sock   mangos.Socket
-	d      mangos.Dialer
-	vd     *vt.DialerCtl
-	R, Max time.Duration
-	mu     sync.Mutex
+	c       *mon.Case
+	sock    mangos.Socket
+	d       mangos.Dialer
+	vd      *vt.DialerCtl
+	R, Max  time.Duration
+	mu      sync.Mutex
 	rejPlan map[int]bool          // ordinals (among successful transport dials) the hook rejects in Attaching
 	nAttach int                   // Attaching events seen so far
 	rejAt   map[int]time.Duration // ordinal -> time just before the rejection
-	att    int
-	det    int
+	att     int
+	det     int
 }
 
 func newRig(c *mon.Case, sp spec) *rig {
